@@ -4,3 +4,4 @@ import Proofs.C07
 import Proofs.C12
 import Proofs.C11
 import Proofs.C13
+import Proofs.C15
